@@ -440,19 +440,24 @@ func runCase(app *fx.App, tr *fx.Trace, r *fx.Rng, caseNo int) {
 	app.Fund(c.ctx, c.req.Address, "uband", sdkmath.NewInt(1_000_000))
 	tr.Reset(fx.M{"minDur": fx.I(c.minDur), "maxDur": fx.I(c.maxDur)})
 	// an optional current group and an optional spare ACTIVE group (for forced transitions)
-	if r.Chance(4, 5) {
+	hasCurrent := r.Chance(4, 5)
+	if hasCurrent {
 		c.seed++
 		g, err := tssfx.NewGroupWith(app, c.ctx, tssfx.NewAccounts(c.seed, r.Range(2, 3)), uint64(r.Range(1, 2)), bandtsstypes.ModuleName)
 		fx.Must(err)
 		c.registerGroup(g, true)
 		c.supplyDEs(g)
 	}
-	if r.Chance(1, 2) {
+	if r.Chance(1, 2) || !hasCurrent {
 		c.seed++
 		g, err := tssfx.NewGroupWith(app, c.ctx, tssfx.NewAccounts(c.seed, 2), uint64(r.Range(1, 2)), bandtsstypes.ModuleName)
 		fx.Must(err)
 		c.registerGroup(g, false)
-		c.supplyDEs(g)
+		if r.Chance(2, 3) && (hasCurrent || r.Chance(1, 2)) {
+			c.supplyDEs(g)
+		} else {
+			c.tr.Tag("spare-group-without-nonces") // a request put to it cannot be assigned
+		}
 	}
 	if stale {
 		c.staleScenario()
@@ -477,7 +482,7 @@ func runCase(app *fx.App, tr *fx.Trace, r *fx.Rng, caseNo int) {
 			}
 			continue
 		case hasTr && tr.Status == bandtsstypes.TRANSITION_STATUS_WAITING_EXECUTION && r.Chance(1, 2):
-			if r.Chance(1, 2) {
+			if r.Chance(1, 2) || app.BandtssKeeper.GetCurrentGroup(c.ctx).GroupID == 0 {
 				c.request()
 				c.signSome()
 			}
@@ -487,7 +492,7 @@ func runCase(app *fx.App, tr *fx.Trace, r *fx.Rng, caseNo int) {
 		switch x := r.Intn(20); {
 		case x < 4:
 			c.propose()
-		case x < 6:
+		case x < 6 || x < 12 && app.BandtssKeeper.GetCurrentGroup(c.ctx).GroupID == 0:
 			c.force()
 		case x < 8:
 			if c.dkg != nil && c.dkg.Round < 3 {
